@@ -61,7 +61,7 @@ func (c termCase) desc() string {
 
 func genCase(t *rapid.T) termCase {
 	var c termCase
-	c.Ending = rapid.SampledFrom([]string{"max-duration", "max-duration", "own-duration", "own-duration", "limit", "cancel-before", "cancel-during-setup", "cancel-mid-run", "cancel-mid-run", "setup-fail", "setup-panic"}).Draw(t, "ending")
+	c.Ending = rapid.SampledFrom([]string{"max-duration", "max-duration", "own-duration", "own-duration", "limit", "cancel-before", "cancel-during-setup", "cancel-mid-run", "cancel-mid-run", "setup-fail", "setup-panic", "max-duration-then-cancel"}).Draw(t, "ending")
 	c.Blocking = rapid.SampledFrom([]string{"instant", "sleep", "sleep", "blocked"}).Draw(t, "blocking")
 	if c.Ending == "own-duration" && rapid.Bool().Draw(t, "blockedAtOwnEnd") {
 		// iterations still blocked when the trigger's own schedule ends: the completion timeout, not
@@ -70,6 +70,10 @@ func genCase(t *rapid.T) termCase {
 	}
 	opts := vlib.ShapeOpts{MaxConcurrency: 16, MaxPerTick: 20}
 	switch c.Ending {
+	case "max-duration-then-cancel":
+		// max-duration elapses with iterations (150 ms) in flight; the caller cancels while Do waits for them
+		opts.StageMs = [2]int{6000, 9000}
+		opts.MinDur, opts.MaxDur = 50*time.Millisecond, 200*time.Millisecond
 	case "max-duration":
 		// the trigger's own duration (staged, file) is far beyond max-duration
 		opts.StageMs = [2]int{6000, 9000}
@@ -115,6 +119,10 @@ func genCase(t *rapid.T) termCase {
 	}
 	if c.Ending == "cancel-mid-run" {
 		c.CancelMs = rapid.IntRange(1, 150).Draw(t, "cancelMs")
+	}
+	if c.Ending == "max-duration-then-cancel" {
+		c.Blocking, c.SleepUs, c.Blocked, c.WaitMs = "sleep", 150000, 0, 20000
+		c.CancelMs = int(c.Shape.MaxDuration.Milliseconds()) + rapid.IntRange(10, 80).Draw(t, "cancelAfterEndMs")
 	}
 	switch c.Ending {
 	case "max-duration", "own-duration", "limit", "setup-fail", "setup-panic":
@@ -206,7 +214,7 @@ func execute(c termCase, dir string) (observation, error) {
 			time.Sleep(10 * time.Millisecond)
 			cancel()
 		}()
-	case "cancel-mid-run":
+	case "cancel-mid-run", "max-duration-then-cancel":
 		go func() {
 			<-setupEntered
 			time.Sleep(time.Duration(c.CancelMs) * time.Millisecond)
